@@ -6,6 +6,7 @@
 //	                 IsAny IsGeneric) and GetUnderlying TrueUnderlying ListTrueUnderlying GetListElementType
 //	                 GetNestedListElementType CastTypeDef(..).Underlying, rendered by tyspec.Show
 //	E                per type: row of Equal and row of DeepEqual against every registered type
+//	C                the codes of TYP_BAD_ASSIGNEMENT and TYP_BAD_CAST
 //	S <id> <hex>     parse the DDP source: "S <id> <err> <faulty> <code>:<line> ..."
 //	GU ...           generic unification / instantiation (see generic.go)
 package main
@@ -112,6 +113,8 @@ func main() {
 				fmt.Fprintf(out, "E %d %s %s\n", i, row(ts, func(b ddptypes.Type) bool { return ddptypes.Equal(a, b) }),
 					row(ts, func(b ddptypes.Type) bool { return ddptypes.DeepEqual(a, b) }))
 			}
+		case "C": // the diagnostic codes of the positions under test, from the real constants
+			fmt.Fprintf(out, "C %d %d\n", int(ddperror.TYP_BAD_ASSIGNEMENT), int(ddperror.TYP_BAD_CAST))
 		case "S":
 			src, err := hex.DecodeString(fs[2])
 			if err != nil {
